@@ -141,3 +141,43 @@ M.lemma("nothing_else_appears", vars=dict(p=SEQS, t=Tree, x=Tree), hyps=["len(p)
         instances=[("merge_is_union_of_paths", dict(p="p", args="[t, x]")), ("any_path_of_two", dict(a="t", b="x", p="p"))], properties=["C17", "C10"])
 M.lemma("merging_a_tree_with_itself_changes_nothing", vars=dict(t=Tree), hyps=[], goal="mu([t, t]) == t and mu([t]) == t",
         properties=["C17", "C10"])
+
+
+# ==================================================================================================================
+# RunGeneratorResult.config_tree: the device's desired configuration is the union of all partial generators' outputs (C10)
+FR = "annet/generators/result.py"
+GRest = U.opaque("GRest")
+GR = U.record("GR", dict(config=Tree, safe_config=Tree, rest=GRest))
+PR = U.dict("PR", STR, GR)
+RGR = U.record("RGR", dict(partial_results=PR))
+
+
+@M.spec
+def cfg_of(gr: GR, safe: BOOL) -> Tree:
+    return gr.safe_config if safe else gr.config
+
+
+@M.spec
+def ctree(rs: PR, safe: BOOL, acc: Tree) -> Tree:
+    """the generators' outputs merged one after the other, in run order"""
+    return acc if not rs else ctree(dtail(rs), safe, mu([acc, cfg_of(dhead(rs)[1], safe)]))
+
+
+@M.spec
+def any_gen_path(rs: PR, safe: BOOL, p: SEQS) -> BOOL:
+    """some generator yielded the block path p"""
+    return False if not rs else (has_path(cfg_of(dhead(rs)[1], safe), p) or any_gen_path(dtail(rs), safe, p))
+
+
+M.contract(FR, "RunGeneratorResult.config_tree", params=dict(self=RGR, safe=BOOL), defaults=dict(safe=False), ret=Tree, locals=dict(tree=Tree),
+           ensures=["result == ctree(self.partial_results, safe, {})"],
+           loops={1: dict(match="self.partial_results.values()", inv=["ctree(_rest1, safe, tree) == ctree(self.partial_results, safe, {})"])},
+           canaries=["len(result) == 0"], properties=["C10"])
+_mq = {c.qual: c for c in M.contracts}
+_mq["RunGeneratorResult.config_tree"].calls["merge_dicts"] = _mq["merge_dicts"]
+
+M.lemma("desired_config_is_the_union_of_the_generators_outputs", vars=dict(rs=PR, safe=BOOL, acc=Tree, p=SEQS), hyps=["len(p) > 0"],
+        goal="has_path(ctree(rs, safe, acc), p) == (has_path(acc, p) or any_gen_path(rs, safe, p))", induct="rs",
+        ih=[dict(acc="mu([acc, cfg_of(dhead(rs)[1], safe)])")],
+        instances=[("merge_is_union_of_paths", dict(p="p", args="[acc, cfg_of(dhead(rs)[1], safe)]")),
+                   ("any_path_of_two", dict(a="acc", b="cfg_of(dhead(rs)[1], safe)", p="p"))], properties=["C10"])
